@@ -51,6 +51,48 @@ func errorResult(call *ssa.Call) (v ssa.Value, has bool) {
 	return nil, true
 }
 
+// reachesAvoidingEdges reports whether some path from just after `from` reaches
+// instruction `to` without traversing any of the given conditional edges.
+func reachesAvoidingEdges(from, to ssa.Instruction, avoid []an.CondEdge) bool {
+	blocked := func(b, succ *ssa.BasicBlock) bool {
+		for _, e := range avoid {
+			if e.If.Block() == b && e.To() == succ {
+				// both branches to the same block cannot be told apart
+				return b.Succs[0] != b.Succs[1]
+			}
+		}
+		return false
+	}
+	blk, i := an.After(from)
+	for j := i; j < len(blk.Instrs); j++ {
+		if blk.Instrs[j] == to {
+			return true
+		}
+	}
+	seen := map[*ssa.BasicBlock]bool{}
+	work := []*ssa.BasicBlock{}
+	push := func(b *ssa.BasicBlock) {
+		for _, s := range b.Succs {
+			if !blocked(b, s) && !seen[s] {
+				seen[s] = true
+				work = append(work, s)
+			}
+		}
+	}
+	push(blk)
+	for len(work) > 0 {
+		b := work[len(work)-1]
+		work = work[:len(work)-1]
+		for _, in := range b.Instrs {
+			if in == to {
+				return true
+			}
+		}
+		push(b)
+	}
+	return false
+}
+
 // c13Commit checks one commit instruction.
 func c13Commit(c *an.Ctx, fn *ssa.Function, what string, commit ssa.Instruction, ignorable func(name string) bool) {
 	key := an.FnKey(fn) + " commit: " + what
@@ -69,7 +111,7 @@ func c13Commit(c *an.Ctx, fn *ssa.Function, what string, commit ssa.Instruction,
 			continue
 		}
 		// find the conditional edges that test this error
-		checked := false
+		var succEdges []an.CondEdge
 		if ev != nil {
 			for _, b := range fn.Blocks {
 				ifi, ok := b.Instrs[len(b.Instrs)-1].(*ssa.If)
@@ -79,24 +121,51 @@ func c13Commit(c *an.Ctx, fn *ssa.Function, what string, commit ssa.Instruction,
 				for _, br := range []bool{true, false} {
 					e := an.CondEdge{If: ifi, Branch: br}
 					if an.ErrNonNilEdgeOf(e, call) {
-						checked = true
-						// the commit must not be reachable from the failure edge
-						to := e.To()
-						reach := false
-						if len(to.Instrs) > 0 {
-							if to.Instrs[0] == commit || an.CanReach(to.Instrs[0], commit) {
-								reach = true
-							}
-						}
-						if reach {
-							problems = append(problems, fmt.Sprintf("reachable from the failure edge of %s (%s)", name, c.Pos(call.Pos())))
-						}
+						succEdges = append(succEdges, an.CondEdge{If: ifi, Branch: !br})
 					}
 				}
 			}
 		}
-		if !checked {
+		if len(succEdges) == 0 {
 			problems = append(problems, fmt.Sprintf("the error of %s (%s) is not checked before the commit", name, c.Pos(call.Pos())))
+			continue
+		}
+		// every path from the call to the commit must take the success edge of
+		// the check: neither the failure edge nor a path that commits before the
+		// check may reach it
+		if reachesAvoidingEdges(call, commit, succEdges) {
+			problems = append(problems, fmt.Sprintf("reachable from %s (%s) without passing the success branch of its error check", name, c.Pos(call.Pos())))
+		}
+	}
+	// the function must not be able to fail after the commit: a caller that sees
+	// the error keeps treating the previous version as current
+	for _, ci := range an.Calls(fn) {
+		call, ok := ci.(*ssa.Call)
+		if !ok || call == commit {
+			continue
+		}
+		_, fallible := errorResult(call)
+		if !fallible || !an.CanReach(commit, call) || an.CanReach(call, commit) {
+			continue
+		}
+		name := an.Short(an.CalleeName(call))
+		if ignorable(name) {
+			continue
+		}
+		for _, b := range fn.Blocks {
+			ifi, ok := b.Instrs[len(b.Instrs)-1].(*ssa.If)
+			if !ok {
+				continue
+			}
+			for _, br := range []bool{true, false} {
+				e := an.CondEdge{If: ifi, Branch: br}
+				if !an.ErrNonNilEdgeOf(e, call) {
+					continue
+				}
+				if _, reaches := an.ReachesExitAvoiding(e.To(), 0, func(ssa.Instruction) bool { return false }, false); reaches {
+					problems = append(problems, fmt.Sprintf("%s (%s) can still fail after the commit: the new content is live although the update is reported as failed", name, c.Pos(call.Pos())))
+				}
+			}
 		}
 	}
 	if len(problems) > 0 {
@@ -388,6 +457,76 @@ func runC13(c *an.Ctx) {
 		{"filter/internal/refreshable.(*Refreshable).withDeferredTmpCleanup", "atomic replace of the cache file", callTo(func(call ssa.CallInstruction) bool {
 			return strings.HasSuffix(an.CalleeName(call), "PendingFile).CloseAtomicallyReplace")
 		})},
+	}
+	listed := map[ssa.Instruction]bool{}
+	for _, sp := range specs {
+		if fn := c.Fn(sp.fn); fn != nil {
+			for _, in := range sp.find(fn) {
+				listed[in] = true
+			}
+		}
+	}
+	// coverage: every write to receiver state in a refresh-like function of the
+	// filter packages is one of the listed commits (or a named exception)
+	commitExceptions := map[string]string{
+		"filter/filterstorage.(*Default).resetRuleLists store p0.ruleLists": "the body of the rule-list map swap; its call sites are checked to be exactly the listed commit in refresh",
+	}
+	if fn := c.Fn("filter/filterstorage.(*Default).resetRuleLists"); fn != nil {
+		for _, s := range c.Callers(fn) {
+			from := an.FnKey(s.In)
+			if c.IsTestFile(s.In.Pos()) {
+				continue
+			}
+			c.Check(from == "filter/filterstorage.(*Default).refresh", "C13-R3", "resetRuleLists called from "+from, fn.Pos(),
+				"only the storage's refresh swaps the rule-list map", "the rule-list map is swapped from a function whose failure paths are not checked")
+		}
+	}
+	for _, fn := range c.FnsMatching("filter/") {
+		k := an.FnKey(fn)
+		if c.IsTestFile(fn.Pos()) || fn.Signature.Recv() == nil || fn.Parent() != nil {
+			continue
+		}
+		if pk := an.FnPkg(fn); pk != nil && strings.HasSuffix(pk.Path(), "test") {
+			continue
+		}
+		ln := strings.ToLower(fn.Name())
+		if !(strings.HasPrefix(ln, "refresh") || ln == "reset" || strings.HasPrefix(ln, "resetrulelists")) {
+			continue
+		}
+		an.Instrs(fn, func(in ssa.Instruction) {
+			var what string
+			switch x := in.(type) {
+			case *ssa.Store:
+				ap, ok := an.AccessPath(x.Addr)
+				if !ok || !strings.HasPrefix(ap, "p0.") {
+					return
+				}
+				what = "store " + ap
+			case *ssa.MapUpdate:
+				ap, ok := an.AccessPath(x.Map)
+				if !ok || !strings.HasPrefix(ap, "p0.") {
+					return
+				}
+				what = "map update " + ap
+			case *ssa.Call:
+				n := an.CalleeName(x)
+				if !(strings.Contains(n, "atomic.") && strings.HasSuffix(n, ".Store")) {
+					return
+				}
+				what = "atomic store"
+			default:
+				return
+			}
+			key := k + " writes receiver state: " + what
+			switch {
+			case listed[in]:
+				c.Ok("C13-R3", key, in.Pos(), "one of the listed commits (checked below)")
+			case commitExceptions[k+" "+what] != "":
+				c.Ok("C13-R3", key, in.Pos(), "exception: %s", commitExceptions[k+" "+what])
+			default:
+				c.Bad("C13-R3", key, in.Pos(), "a refresh function writes live state at a point that is not one of the commits checked for success-only reachability")
+			}
+		})
 	}
 	for _, sp := range specs {
 		fn := c.Fn(sp.fn)
